@@ -73,14 +73,14 @@ struct Family { int n = 0; uint8_t k[NKINDS]; };
 const Family &family() {
     static const Family f = [] {
         Family r;
-        static const struct { const char *id; int kinds[10]; } tab[] = {      // each list ends with -1
-            {"C01", {14, 15, 16, 21, 22, 23, 45, 30, -1}}, {"C02", {14, 15, 21, 22, 23, 45, -1}}, {"C03", {14, 15, 16, 21, 22, 23, 45, -1}},
+        static const struct { const char *id; int kinds[12]; } tab[] = {      // each list ends with -1
+            {"C01", {14, 15, 16, 21, 22, 23, 45, 30, 36, 10, -1}}, {"C02", {14, 15, 21, 22, 23, 45, 36, 10, 12, -1}}, {"C03", {14, 15, 16, 21, 22, 23, 45, 36, 10, -1}},
             {"C04", {35, 36, 41, 42, 43, 6, 9, 14, -1}}, {"C05", {19, 20, 40, -1}}, {"C06", {4, 5, 43, 20, 9, 3, -1}}, {"C07", {0, 1, 2, 3, 46, -1}},
             {"C08", {6, 7, 8, 46, -1}}, {"C09", {10, 11, 12, 13, 44, 46, 47, -1}}, {"C10", {27, 28, 29, 30, 31, 32, 48, -1}}, {"C11", {27, 28, 29, 30, 31, 32, 48, -1}},
             {"C12", {17, 33, 27, 37, -1}}, {"C13", {18, 34, 27, 28, 29, 37, -1}}, {"C14", {24, 25, 26, -1}}, {"C15", {24, 25, 26, -1}}, {"C16", {37, 38, 39, 44, -1}},
             {"C17", {30, 31, 32, 27, 48, -1}}, {"C18", {26, 15, 36, 10, 12, 38, 42, -1}}};
         const char *e = getenv("VERIF_FAMILY");
-        if (e) for (const auto &t : tab) if (!strcmp(e, t.id)) for (int i = 0; i < 10 && t.kinds[i] >= 0; i++) r.k[r.n++] = (uint8_t)t.kinds[i];
+        if (e) for (const auto &t : tab) if (!strcmp(e, t.id)) for (int i = 0; i < 12 && t.kinds[i] >= 0; i++) r.k[r.n++] = (uint8_t)t.kinds[i];
         return r;
     }();
     return f;
